@@ -128,7 +128,48 @@ def sweep(arg):
                 if T == "public":
                     L("mod", T, {"s": s}, lambda: getattr(periodictable, s))
                     L("mod", T, {"s": nm}, lambda: getattr(periodictable, nm))
+    # ---- isotopes created on demand after the table has been inspected (other loaders call add_isotope)
+    for z in zs[:3]:
+        sh = shape[str(z)]
+        if not sh["isos"]:
+            continue
+        sym = sh["sym"]
+        newA = max(sh["isos"]) + 2
+        for T, t in tabs:
+            el = t[z]
+            evs.append({"ev": "iterIso", "T": T, "z": z, "res": [iso.isotope for iso in el], "prop": list(el.isotopes)})
+            L("iso", T, {"form": "a-sym", "sym": sym, "a": newA}, lambda: t.isotope("%d-%s" % (newA, sym)))
+            el.add_isotope(newA)
+            evs.append({"ev": "addiso", "T": T, "z": z, "a": newA})
+            L("elA", T, {"z": z, "a": newA}, lambda: el[newA])
+            L("iso", T, {"form": "a-sym", "sym": sym, "a": newA}, lambda: t.isotope("%d-%s" % (newA, sym)))
+            evs.append({"ev": "iterIso", "T": T, "z": z, "res": [iso.isotope for iso in el], "prop": list(el.isotopes)})
+            L("pickle", T, {"z": z, "a": newA, "q": 0}, lambda: pickle.loads(pickle.dumps(el[newA])))
+            if sh["ions"]:
+                q = sh["ions"][0]
+                L("ion", T, {"z": z, "a": newA, "q": q}, lambda: el[newA].ion[q])
+                L("chg", T, {"z": z, "a": 0, "q": q, "to": [x for x in tabs if x[0] != T][0][0]},
+                  lambda: core.change_table(el.ion[q], [x for x in tabs if x[0] != T][0][1]))
     if arg.get("misc", False):
+        # ---- a table that is inspected BEFORE its isotopes are loaded
+        t2 = core.PeriodicTable("T2")
+        probe = [z for z in (1, 8, 26, 28, 92) if str(z) in shape]
+        for phase in (0, 1):
+            for z in probe:
+                sh = shape[str(z)]
+                sym = sh["sym"]
+                L("Z", "T2", {"z": z}, lambda: t2[z])
+                L("sym", "T2", {"s": sym}, lambda: t2.symbol(sym))
+                evs.append({"ev": "iterIso", "T": "T2", "z": z, "res": [iso.isotope for iso in t2[z]], "prop": list(t2[z].isotopes)})
+                for a in sh["isos"][:3] + [2, 3]:
+                    L("elA", "T2", {"z": z, "a": a}, lambda: t2[z][a])
+                    L("iso", "T2", {"form": "a-sym", "sym": sym, "a": a}, lambda: t2.isotope("%d-%s" % (a, sym)))
+            for s_, nm in (("D", "deuterium"), ("T", "tritium")):
+                L("sym", "T2", {"s": s_}, lambda: t2.symbol(s_))
+                L("name", "T2", {"s": nm}, lambda: t2.name(nm))
+            if phase == 0:
+                mass.init(t2)
+                evs.append({"ev": "tabinit", "T": "T2"})
         for T, t in tabs:
             for bad in (-1, 119, 120, 1000):
                 L("Z", T, {"z": bad}, lambda: t[bad])
